@@ -155,7 +155,8 @@ def race_stress(pid, tier, seed, known):
     env.pop('CGO_ENABLED', None)
     hdir = os.path.join(ROOT, 'harness')
     t0 = time.time()
-    p = subprocess.run(['go', 'test', '-race', '-tags', 'verif', '-run', 'TestConc', '-count=1', '-v', '.'], cwd=hdir, env=env,
+    runner.build_harness()
+    p = subprocess.run(['go', 'test', '-modfile', os.path.join(runner.BUILD, 'harness.mod'), '-race', '-tags', 'verif', '-run', 'TestConc', '-count=1', '-v', '.'], cwd=hdir, env=env,
                        stdout=subprocess.PIPE, stderr=subprocess.STDOUT, text=True, timeout=3600)
     log = p.stdout
     races = len(re.findall(r'WARNING: DATA RACE', log))
